@@ -109,6 +109,28 @@ DECOMP = [("raw32_2x2_n16", True), ("raw32_2x2_n15", True), ("raw32_2x2_n17", Tr
           ("rle32_disp_0x1_n3", True)]
 
 
+def C07():
+    jobs = [
+        MirJob("c07_mir_size_closures", "every size/skip closure of the NTLM layouts (negotiate/challenge/authenticate flags, AV pair length): no arithmetic check can fail for any field value; requested buffer <= 131072",
+               mirjobs.size_closures(r"^(negotiate_message|challenge_message|authenticate_message|av_pair)::", 131072, "NLA")),
+        MirJob("c07_mir_payload_field", "ntlm::get_payload_field: for every 16-bit length and 32-bit offset no arithmetic check can fail (message.length() >= payload.len())",
+               mirjobs.fn_asserts(r"^get_payload_field$", "CHALLENGE buffer offsets", call_model=mirjobs.ntlm_payload_model, assume=mirjobs.ntlm_payload_assume, native=lambda m: mirjobs.NLA_NATIVES[r"^get_payload_field$"])),
+        MirJob("c07_mir_panic_sites", "NLA read path (read_ts_server_challenge, read_ts_validate, read_public_certificate, read_challenge_message, get_payload_field, read_target_info, gss_unwrapex): every reachable unwrap/expect/index/panic call is on a justified allow-list",
+               mirjobs.panic_sites(mirjobs.NLA_TARGETS, mirjobs.NLA_NATIVES)),
+        MirJob("c07_mir_arith", "read_challenge_message / gss_unwrapex / read_target_info: no arithmetic check of their own can fail on wire values",
+               mirjobs.multi(mirjobs.fn_asserts(r"ntlm::<impl at src/nla/ntlm\.rs[^>]*>::gss_unwrapex$", "sealed token"),
+                             mirjobs.fn_asserts(r"^read_target_info$", "AV pairs"))),
+    ]
+    return Prop("C07", [], jobs,
+                assumptions=["E3: call results and loads are unconstrained symbols; message.length() >= payload.len() for a field of the message",
+                             "lookups of constant field names in a layout built by the same code are not counted as panic sites"],
+                text="The NLA read path decided on the MIR: every size/offset computation on CHALLENGE fields over all field values (SMT), and every call that can panic on hostile input must be unreachable or justified (fixedpoint reachability + path feasibility), with native replays of the solver's findings.",
+                note="NOT covered: yasna's DER parser and x509-parser themselves (third-party), the Component reads of CHALLENGE / AV pairs on bytes (size idiom), gss_unwrapex executed on bytes (CBMC out of memory, G6). The panic-site audit is a may-analysis: it over-approximates feasibility.",
+                technique="MIR->SMT symbolic execution (z3 QF_BV) of offset/size arithmetic and Datalog/path reachability of panicking calls on the NLA read path",
+                design_ref="DESIGN.md §4 C07",
+                outside=["yasna / x509-parser internals", "byte-level execution of the CHALLENGE and TSRequest parsers"])
+
+
 def C08():
     jobs = [Kani("c08_rle32_twin", "vacuity twin", expect="fail", fail_desc="twin reached", timeout=400, mem_gb=6),
             Kani("c08_rle32_total_zero_area", "rle_32_decompress on zero-area images (w=0 or h=0), 3 symbolic bytes: no panic",
@@ -316,9 +338,9 @@ def C18():
                 outside=["records with size-dependent or skippable fields (Component::read/write with MessageOption::Size/SkipField: CBMC does not finish)", "nested containers", "BER/DER (yasna) structures", "GCC conference blocks", "Version::from table (known finding D14 is checked by c18_mir_version_table)"])
 
 
-PROPS = {"C01": C01, "C02": C02, "C05": C05, "C06": C06, "C08": C08, "C09": C09, "C12": C12, "C13": C13, "C14": C14, "C17": C17, "C18": C18, "C19": C19}
+PROPS = {"C01": C01, "C02": C02, "C05": C05, "C06": C06, "C07": C07, "C08": C08, "C09": C09, "C12": C12, "C13": C13, "C14": C14, "C17": C17, "C18": C18, "C19": C19}
 
-MIR_PROPS = ["C01", "C02", "C05", "C06", "C08", "C12", "C13", "C14", "C17"]
+MIR_PROPS = ["C01", "C02", "C05", "C06", "C07", "C08", "C12", "C13", "C14", "C17"]
 
 _TODO = "not claimed yet: machinery for this property is still being built (see DESIGN.md §4 for the plan)"
 NOT_APPLICABLE = {
@@ -328,5 +350,5 @@ NOT_APPLICABLE = {
     "C15": "CHALLENGE -> AUTHENTICATE needs read_target_info (size idiom) and a 25-field emitter with three to_vec calls; neither is executable by the solver-based engines here",
     "C20": "thread interleavings, select(2) and OpenSSL record buffering are concurrency + FFI; Kani does not model them and no sequential kernel implies the property",
 }
-for _p in ["C04", "C07", "C16"]:
+for _p in ["C04", "C16"]:
     NOT_APPLICABLE.setdefault(_p, _TODO)
